@@ -655,6 +655,11 @@ class _RandomStub:
         shape = () if size is None else (tuple(size) if isinstance(size, (tuple, list)) else (size,))
         return self.rand(*shape)
 
+    def random_sample(self, size=None):
+        return self.random(size)
+
+    ranf = sample = random_sample
+
     def uniform(self, low=0.0, high=1.0, size=None):
         shape = () if size is None else (tuple(size) if isinstance(size, (tuple, list)) else (size,))
         u = self._fresh("u", shape, lo=0, hi=1, hi_strict=True)
@@ -905,6 +910,11 @@ class _PlainRandom:
         shape = () if size is None else (tuple(size) if isinstance(size, (tuple, list)) else (size,))
         return self.rand(*shape)
 
+    def random_sample(self, size=None):
+        return self.random(size)
+
+    ranf = sample = random_sample
+
     def uniform(self, low=0.0, high=1.0, size=None):
         shape = () if size is None else (tuple(size) if isinstance(size, (tuple, list)) else (size,))
         u = self._next("u", shape)
@@ -939,6 +949,10 @@ class _PlainRandom:
 
     def seed(self, s=None):
         pass
+
+    def __getattr__(self, k):
+        # a generator the stubs do not model: the oracle cannot know the draws, so the plain run is not judged either
+        raise Unsupported("np.random.%s in the plain replay" % k)
 
 
 class PlainProxy:
